@@ -4,7 +4,7 @@
 cd /verif
 for seed in "$@"; do
   for id in $(python3 -c "import json;print(' '.join(c['property_id'] for c in json.load(open('MANIFEST.json'))['checks']))"); do
-    VERIF_SEED=$seed /venv/bin/python harness/vcheck.py $id --tier quick > /tmp/sweep_${seed}_$id.log 2>&1
+    VERIF_SEED=$seed /venv/bin/python harness/vcheck.py $id --tier ${SWEEP_TIER:-quick} > /tmp/sweep_${seed}_$id.log 2>&1
     rc=$?
     [ $rc -ne 0 ] && { echo "seed=$seed $id rc=$rc $(grep '^VIOLATION' /tmp/sweep_${seed}_$id.log | head -2 | tr '\n' ' ')"; mkdir -p /tmp/sweep_replays; cp replays/${id}_*.json /tmp/sweep_replays/ 2>/dev/null; for f in replays/${id}_*.json; do [ -f "$f" ] && cp "$f" /tmp/sweep_replays/s${seed}_$(basename $f); done; }
   done
